@@ -17,11 +17,13 @@
 (* as a history variable.                                                                             *)
 EXTENDS Integers, Sequences, FiniteSets, TLC
 
-CONSTANTS Kinds, Widths, Heights, Headers, RefX, RefY
+CONSTANTS Kinds, Widths, Heights, Headers, RefX, RefY, MaxHist
 \* Headers: set of <<cdelt, pc>>;  RefX: set of doubled CRPIX1;  RefY: set of <<a, b>> meaning doubled CRPIX2 = a + b*h
-VARIABLES orig, cur
+\* MaxHist = 0: no history is recorded (two to four states per case).  MaxHist = n > 0: every sequence of at most n calls is a
+\* behaviour of its own (hist = the calls made, trace = the specified object after each of them) and is handed to the harness.
+VARIABLES orig, cur, hist, trace
 
-vars == <<orig, cur>>
+vars == <<orig, cur, hist, trace>>
 
 \* ------------------------------------------------------------------ the linear WCS
 CDof(cdelt, pc) == <<cdelt[1] * pc[1], cdelt[1] * pc[2], cdelt[2] * pc[3], cdelt[2] * pc[4]>>
@@ -61,17 +63,25 @@ Start(c) == LET id == [i \in 1..c.h |-> i - 1] IN
 Cases == {[kind |-> k, w |-> w, h |-> h, cdelt |-> hd[1], pc |-> hd[2], p |-> <<rx, ry[1] + ry[2] * h>>] :
               k \in Kinds, w \in Widths, h \in Heights, hd \in Headers, rx \in RefX, ry \in RefY}
 
-Init == orig \in Cases /\ cur = Start(orig)
-FlipParity == cur' = Flip(cur, orig.h) /\ UNCHANGED orig
-EnsureNegativeParity == cur' = Ensure(cur, orig.h) /\ UNCHANGED orig
-Touch == orig.kind = "pil" /\ cur' = Touched(cur) /\ UNCHANGED orig
+Pixels(c) == (0..(c.w - 1)) \X (0..(c.h - 1))
+\* a ring around the image too: the reference pixel may be outside, and off-image positions must not move either
+PixelsAndRing(c) == ((0 - 1)..c.w) \X ((0 - 1)..c.h)
+WorldTable(o, c) == [y \in 1..c.h |-> [x \in 1..c.w |-> World(o.cd, o.p, x - 1, y - 1)]]
+Snapshot(o) == [cd |-> o.cd, p |-> o.p, rows |-> AsArray(o), pil |-> AsPil(o), sign |-> Sign(o.cd), det |-> Det(o.cd)]
+
+Init == orig \in Cases /\ cur = Start(orig) /\ hist = <<>> /\ trace = <<>>
+Record(name) ==
+    IF MaxHist = 0 THEN UNCHANGED <<hist, trace>>
+    ELSE /\ Len(hist) < MaxHist
+         /\ hist' = Append(hist, name)
+         /\ trace' = Append(trace, [snap |-> Snapshot(cur'), world |-> WorldTable(cur', orig)])
+FlipParity == cur' = Flip(cur, orig.h) /\ UNCHANGED orig /\ Record("flip")
+EnsureNegativeParity == cur' = Ensure(cur, orig.h) /\ UNCHANGED orig /\ Record("ensure")
+Touch == orig.kind = "pil" /\ cur' = Touched(cur) /\ UNCHANGED orig /\ Record("touch")
 Next == FlipParity \/ EnsureNegativeParity \/ Touch
 Spec == Init /\ [][Next]_vars
 
 HasData == orig.kind # "desc"
-Pixels(c) == (0..(c.w - 1)) \X (0..(c.h - 1))
-\* a ring around the image too: the reference pixel may be outside, and off-image positions must not move either
-PixelsAndRing(c) == ((0 - 1)..c.w) \X ((0 - 1)..c.h)
 
 \* ------------------------------------------------------------------ the sentences of the property
 \* "moves no pixel on the sky": whatever calls were made, the pixel stored in array row y is the original row
@@ -116,14 +126,16 @@ EnsureOK ==
         /\ Sign(cur'.cd) = -1
         /\ Ensure(cur', orig.h) = cur'
         /\ (Sign(cur.cd) = -1 => cur' = cur) ]_vars
+\* ... "always": after every ensure_negative_parity call of every recorded history
+EnsureAlwaysNegative == \A i \in 1..Len(hist) : hist[i] = "ensure" => trace[i].snap.sign = -1
 \* the space is what the property quantifies over: non-singular matrices only
 WellFormed == Det(Start(orig).cd) # 0 /\ Det(cur.cd) # 0
 
 \* ------------------------------------------------------------------ what the harness gets for every state
-WorldTable(o, c) == [y \in 1..c.h |-> [x \in 1..c.w |-> World(o.cd, o.p, x - 1, y - 1)]]
-Snapshot(o) == [cd |-> o.cd, p |-> o.p, rows |-> AsArray(o), pil |-> AsPil(o), sign |-> Sign(o.cd), det |-> Det(o.cd)]
 Report == LET f == Flip(cur, orig.h)  e == Ensure(cur, orig.h) IN
           [orig |-> orig, start |-> Snapshot(cur), world |-> WorldTable(cur, orig),
            flip |-> Snapshot(f), wflip |-> WorldTable(f, orig), flip2 |-> Snapshot(Flip(f, orig.h)),
            ensure |-> Snapshot(e), wensure |-> WorldTable(e, orig), ensure2 |-> Snapshot(Ensure(e, orig.h))]
+\* a complete call history: what was called and the specified object after every call
+HistoryReport == [orig |-> orig, start |-> Snapshot(Start(orig)), world |-> WorldTable(Start(orig), orig), hist |-> hist, trace |-> trace]
 =============================================================================
